@@ -20,6 +20,8 @@ type Val struct {
 	// Taint: refs of objects allocated by the function under verification ("protected" objects)
 	// this value may point to or into. Used to decide when such an object escapes.
 	Taint []string
+	// Boxed: for an interface value built by MakeInterface in this function, the value inside
+	Boxed *Val
 }
 
 func unionTaint(vs ...Val) []string {
@@ -207,6 +209,9 @@ func (x *Executor) heapGet(st *State, comp string) string {
 	if !x.u.declSeen[name] {
 		x.u.declare(name, sortS)
 		if ax := x.u.heapTyping(comp, name); ax != "" {
+			x.u.decls = append(x.u.decls, "(assert "+ax+")")
+		}
+		if ax := x.u.entryClosed(comp, name); ax != "" {
 			x.u.decls = append(x.u.decls, "(assert "+ax+")")
 		}
 	}
